@@ -625,7 +625,9 @@ def entry_include_set(rng, root, filename):
 	return [(inc, rng.choice(['', '', ' // note', '\t/* c */'])) for inc in chosen]
 
 
-INCLUDE_LINE = re.compile(r'#include ("[^"<>]+"|<[^"<>]+>)([ \t].*)?')
+# an include line names a FILE: a last path component is there (`#include "catapult/utils/"` or `"/"` name a directory; the linter shortens
+# includes of the file's own directory by cutting that directory off, which would leave `""`)
+INCLUDE_LINE = re.compile(r'#include ("[^"<>]*[^"<>/]"|<[^"<>]*[^"<>/]>)([ \t].*)?')
 
 
 def file_with_includes(filename, pairs):
